@@ -219,6 +219,18 @@ theorem mv_conf_unit (classes : Nat) (tags : List (Nat × Rat)) :
 theorem wta_inherits {F} [Num F] (P : Nat × F → Prop) (tags : List (Nat × F)) (h : tags ≠ [])
     (hp : ∀ t ∈ tags, P t) : P (wta tags) := hp _ (wta_mem' tags h)
 
+/-- e.g. a winner-takes-all team of dyn-slot classifiers (each member trained on its own outputs
+    `trains k`, queried with its own output `queries k`) names an existing class -/
+theorem team_wta_dynslot_label_lt {F} [NumN F] (fns : Fns F) (classes xslot : Nat) (hc : 0 < classes)
+    (members : List (List (Option F × Nat) × Option F)) (h : members ≠ []) :
+    (wta (members.map (fun m => dynTag fns (fillMatrix fns classes xslot m.1) m.2))).1 < classes := by
+  apply wta_inherits (fun t => t.1 < classes)
+  · simpa using h
+  · intro t ht
+    simp only [List.mem_map] at ht
+    obtain ⟨m, _, rfl⟩ := ht
+    exact dynslot_label_lt_classes fns classes xslot hc m.1 m.2
+
 /-! ## confidence range for doubles (IEEE laws as hypotheses) -/
 
 theorem dynslot_confidence_unit_ieee {F} [NumN F] (L : ConfLaws F) (fns : Fns F) (m : DynSlot)
